@@ -326,7 +326,29 @@ def gen_cases(tier, rng, info):
 
 
 THEOREMS = {
-    'C12_substring_spec': 'substring is BibTeX\'s 1-based, end-relative-for-negative-start, clamped selection, for all integer arguments',
+    'C12_substring_spec': 'substring is BibTeX\'s 1-based, end-relative-for-negative-start, clamped selection (empty for start 0 or length <= 0), for ALL integer arguments',
+    'C12_balanced_specials_closed': 'every brace-balanced string has all its special characters closed (the hypothesis of the lossless/case theorems holds on balanced input)',
+    'C12_scan_lossless': 'scanning is lossless whenever every special character is closed (in particular on balanced input); in general the only difference is one "}" appended after an unclosed special character',
+    'C12_scan_lossless_neg': 'witness "{\\": without the hypothesis losslessness fails (the scanner closes the unclosed special character)',
+    'C12_scan_levels': 'where the depth never goes negative and special characters are closed, every token level is the running brace depth of the text consumed so far (never negative); on balanced input the last level is 0',
+    'C12_scan_total': 'the scanner raises "too many nested braces" exactly when the nesting depth exceeds 100',
+    'C12_len_spec': 'text length = reference text length (braces never counted, a special character once, other characters once) or the nesting error',
+    'C12_len_plain': 'text length of a brace-free string is its length',
+    'C12_len_braces': 'braces themselves are never counted (no backslash: length = number of non-brace characters)',
+    'C12_len_special': 'a closed special character {\\...} counts exactly once whatever its (balanced) body',
+    'C12_prefix_len': 'the text prefix of n >= 0 has text length min(n, text length)',
+    'C12_prefix_nonpos': 'the text prefix is empty for n <= 0',
+    'C12_prefix_is_prefix': 'the text prefix is a prefix of the string followed by exactly the closing braces it left open (a prefix of s + "}" after an unclosed special character)',
+    'C12_depthSat_depthAfter': 'the saturating depth used in C12_prefix_is_prefix is the brace depth wherever that never goes negative',
+    'C12_purify_range': 'purify yields only ASCII letters, digits and spaces',
+    'C12_purify_idem': 'purify is idempotent',
+    'C12_case_len_partial': 'case change preserves length when every special character is closed',
+    'C12_case_len_neg': 'witness "{\\": case change on an unclosed special character lengthens the string (known finding C12-unclosed-special-char)',
+    'C12_case_letters': 'case change keeps every letter up to case and every other character, when every special character is closed',
+    'C12_case_letters_neg': 'witness "{\\": letters-up-to-case fails on an unclosed special character',
+    'C12_case_idem_partial': 'case change is idempotent when every special character is closed',
+    'C12_case_idem_neg': 'witness "{\\{": case change is not idempotent on an unclosed special character with a further open brace',
+    'C12_case_braces': 'inside braces case change changes nothing except the non-command words of a special character',
 }
 
 LEVEL_TEXT = 'see THEOREMS; filled when the proofs are registered'
